@@ -30,15 +30,21 @@ def parseConcClient : Sx → Option ConcClient
   | _ => none
 
 def parseConcCase : Sx → Option ConcCase
-  | .list [.atom "listen-conc", _, _, svc, .list (.atom "clients" :: cl)] => do
+  | .list (.atom "listen-conc" :: _ :: _ :: svc :: .list (.atom "clients" :: cl) :: _) => do
     let s ← parseSvc svc
     let cl ← cl.mapM parseConcClient
     pure { svc := s, svcSx := svc, clients := cl }
   | _ => none
 
+def throughLastNewline (b : Bytes) : Bytes :=
+  (b.reverse.dropWhile (· != 10)).reverse
+
 def upEcho (r : ConnResult) : Bytes :=
-  -- the fixture's upgraded handler is only invoked when there is something to read
-  if r.upgraded.isSome && !r.handedOver.isEmpty then r.handedOver else []
+  -- the fixture's upgraded handler is only invoked when there is something to read; the line-wise
+  -- fixture (interface `up.line`) echoes the complete lines and hands the unfinished one back
+  if r.upgraded.isSome && !r.handedOver.isEmpty then
+    (if r.upgraded == some "up.line" then throughLastNewline r.handedOver else r.handedOver)
+  else []
 
 def concClientObs (svc : Service) (cl : ConcClient) : Sx :=
   let total := cl.chunks.flatten
@@ -48,8 +54,9 @@ def concClientObs (svc : Service) (cl : ConcClient) : Sx :=
     | none, true => "err"
     | none, false => "eof"
   let ref : Sx := .list [.atom "ref", .atom refStatus, .list (.atom "out" :: r.out.map ofReply),
-    bytesAtom (if r.upgraded.isSome then r.handedOver else [])]
-  .list [.atom "c", .atom "t", .list (.atom "out" :: r.out.map ofReply), bytesAtom (upEcho r), ref]
+    bytesAtom (if r.upgraded == some "up.line" then throughLastNewline r.handedOver
+               else if r.upgraded.isSome then r.handedOver else [])]
+  .list [.atom "c", .atom "t", .list (.atom "out" :: r.out.map ofReply), bytesAtom (upEcho r), .atom "f", ref]
 
 def concLine (c : ConcCase) : Sx :=
   .list (.atom "obs" :: c.clients.map (concClientObs c.svc))
@@ -156,14 +163,15 @@ def listenLine (line : String) : String :=
 /-! ### predicates -/
 
 def parseConnObs : Sx → Option ConnObs
-  | .list [.atom "c", closed, .list (.atom "out" :: out), up,
+  | .list [.atom "c", closed, .list (.atom "out" :: out), up, late,
            .list [.atom "ref", .atom rst, .list (.atom "out" :: rout), rup]] => do
     let closed ← asOptBool closed
+    let late ← asOptBool late
     let (o, raw) := parseReplies out
     let up ← asBytes up
     let (ro, _) := parseReplies rout
     let rup ← asBytes rup
-    pure { closed := closed.getD false, out := o, rawOut := raw, up, refStatus := rst, refOut := ro, refUp := rup }
+    pure { closed := closed.getD false, out := o, rawOut := raw, up, late := late.getD false, refStatus := rst, refOut := ro, refUp := rup }
   | _ => none
 
 def clientTokens (cl : ConcClient) : List String :=
@@ -224,7 +232,10 @@ def listenPred (prop : String) (caseLine obsLine : String) : String :=
         match parseConcCase cs with
         | some c =>
           match os with
-          | .list (.atom "obs" :: items) => concPred c items
+          | .list (.atom "obs" :: items) =>
+            if items.any (fun x => match x with | .list [.atom "server-did-not-stop"] => true | _ => false) then
+              some "server-did-not-stop-after-all-peers-had-gone"
+            else concPred c items
           | _ => some "unparsable-observation"
         | none =>
           match parseTimingCase cs, parseTimingObs os with
